@@ -50,6 +50,10 @@ import (
 
 const c16Type = "veriffake16"
 
+// how long the harness waits for something that must happen (a Serve goroutine starting, Wait returning once every
+// server has stopped) before it reports that it did not; generous because the machine may stall under load
+const c16Patience = 30 * time.Second
+
 type c16Event struct {
 	seq  int
 	code string // two letters
@@ -456,7 +460,7 @@ func c16Eval(f []string) (string, []string) {
 			if lineageOfGenHas(lineageOfGen, s.gen) {
 				select {
 				case <-s.served:
-				case <-time.After(2 * time.Second):
+				case <-time.After(c16Patience):
 					c16rec.log("noserve", s.gen, s.idx)
 				}
 			}
@@ -492,7 +496,7 @@ func c16Eval(f []string) (string, []string) {
 				select {
 				case <-l.waiter:
 					returned = true
-				case <-time.After(2 * time.Second):
+				case <-time.After(c16Patience):
 				}
 			} else {
 				for i := 0; i < 3; i++ {
@@ -616,7 +620,7 @@ func c16Eval(f []string) (string, []string) {
 		if l.waiter != nil {
 			select {
 			case <-l.waiter:
-			case <-time.After(2 * time.Second):
+			case <-time.After(c16Patience):
 			}
 		}
 	}
